@@ -428,6 +428,25 @@ type c19Real struct {
 	SetCookie string
 	Panic     string
 	Writes    int
+	Malformed string // why the bytes sent do not make one well-formed reply
+}
+
+// c19OneReply tells whether status, headers and body make ONE well-formed reply: a handler that goes on
+// after it has answered (an error line followed by a page, two pages) has sent two.
+func c19OneReply(code int, h http.Header, body string) string {
+	lower := strings.ToLower(body)
+	pages := strings.Count(lower, "<html")
+	switch {
+	case pages > 1:
+		return "the reply body holds more than one HTML document"
+	case code >= 400 && (pages > 0 || strings.Contains(lower, "<form")):
+		return fmt.Sprintf("the error reply (%d) is followed by a page in the same body", code)
+	case strings.HasPrefix(h.Get("Content-Type"), "text/plain") && (pages > 0 || strings.Contains(lower, "<form")):
+		return "a page is served behind a text/plain error line"
+	case strings.HasPrefix(h.Get("Content-Type"), "application/json") && body != "" && !json.Valid([]byte(body)):
+		return "the JSON reply is followed by other content"
+	}
+	return ""
 }
 
 // project maps a real HTTP reply onto the model's reply record.
@@ -524,6 +543,7 @@ func (e *c19Env) do(a c19Act, failAt int, kind string) c19Real {
 		w := doHTTP(e.srv, q)
 		out.Body = w.Body.String()
 		out.Reply, out.SetCookie = c19Project(w.Code, w.Header(), out.Body)
+		out.Malformed = c19OneReply(w.Code, w.Header(), out.Body)
 	})
 	e.store.armed = false
 	if p {
@@ -665,6 +685,9 @@ func c19Oracle(from c19View, a c19Act, r c19Real) string {
 	}
 	if r.Reply.Status == 0 {
 		return "the request did not receive an HTTP reply"
+	}
+	if r.Malformed != "" {
+		return "the request did not receive exactly one well-formed HTTP reply: " + r.Malformed
 	}
 	credsOK := (a.N == "Login" || a.N == "SSOLogin") && a.Pw != "" && from.Users[a.U].Pw == a.Pw
 	if r.Reply.Kind == "assertion" {
